@@ -24,7 +24,7 @@ RULE = ('histories of 3-14 operations (register on one of 3 lines with distingui
 ASSUMPTIONS = ['listener updates are applied synchronously (a synchronous task handler is set through the public '
                'set_task_handler), so each comparison happens at quiescence; asynchrony is C12']
 REQUIRE = {'operations_checked': 4000, 'unregister_shared_location': 200, 'double_unregister': 200,
-           'service_updates': 300}
+           'service_updates': 300, 'method_registrations': 150}
 
 HOST = '''"""c13 probe"""
 
@@ -115,6 +115,10 @@ def case_hist(seed, out, spec, wd):
                 else:
                     args['snapshot'] = 'no_collect'
                     args['log_msg'] = mark
+                if r.chance(0.2):
+                    # a tracepoint on the function rather than on a line (it then lives side by side with line ones)
+                    args['method_name'] = 'probe'
+                    out.count('method_registrations')
                 # call forms: every optional argument may be left out
                 form = r.randrange(5)
                 if form == 0 or (watches and metrics):
